@@ -32,7 +32,7 @@ class Inconclusive(BaseException):
     """A budget (decisions, paths, wall clock) was exceeded."""
 
 
-class HarnessError(Exception):
+class HarnessError(BaseException):
     """Something the engine / shim does not model: never a property verdict."""
 
 
